@@ -153,19 +153,26 @@ Definition same_ents (ordered : bool) (a b : list ent) : bool :=
   if ordered then leqb ent_eqb_norec a b
   else Nat.eqb (List.length a) (List.length b) && forallb (fun e => mem_ent e b) a.
 
-Definition http_matches (c : tcase) (post : N * list (string * list ent) * nsmap) : bool :=
+(** [need_get_ok]: after a 200 the GET response must itself parse (the hub reads what it wrote).
+    The pinned handler hands a posted continuation element - or an entity that kept the raw
+    "token" property - to the store like any entity; the stored JSON then carries the un-namespaced
+    property key "token" and the dataset's GET output no longer parses (F15d).  What was stored is
+    only observable through a GET that parses. *)
+Definition http_matches (need_get_ok : bool) (c : tcase) (post : N * list (string * list ent) * nsmap) : bool :=
   let '(oc, gs, _) := post in
   let es := all_emitted gs in
   let '(st, stored) := flush (S (List.length es)) es oc in
   N.eqb st (o_status c)
-  && (if comparable stored then same_ents (c_ordered c) stored (payload (o_groups c)) else true).
+  && (if need_get_ok && N.eqb st 0 then N.eqb (o_outcome c) 0 else true)
+  && (if N.eqb (o_outcome c) 0 && comparable stored
+      then same_ents (c_ordered c) stored (payload (o_groups c)) else true).
 
 Definition agree (v : variant) (c : tcase) : bool :=
   match c_mode c with
   | MStream => obs_matches c true (run_stream v (c_toks c) (c_eof c))
   | MTxn => obs_matches c false (run_txn v (c_toks c))
   | MHttp => obs_matches c false (run_stream v (c_toks c) (c_eof c))
-             && http_matches c (run_stream v (c_post c) (c_post_eof c))
+             && http_matches (strict v) c (run_stream v (c_post c) (c_post_eof c))
   end.
 
 (** the executable spec S on the implementation's own observation:
@@ -178,7 +185,7 @@ Definition spec_ok (c : tcase) : bool :=
   | MStream => obs_matches c true (run_spec (c_toks c) (c_eof c))
   | MTxn => obs_matches c false (run_txn fixed (c_toks c))
   | MHttp => obs_matches c false (run_spec (c_toks c) (c_eof c))
-             && http_matches c (run_spec (c_post c) (c_post_eof c))
+             && http_matches true c (run_spec (c_post c) (c_post_eof c))
   end.
 
 Definition v_types : variant := {| chk_types := true; skip_unknown := false; strict := false |}.
